@@ -205,6 +205,8 @@ public:
     void teardown() override
     {
         // quiescence: give everything back, then the pool must be able to serve its full capacity again
+        // (a pool that has lost an object can make the bounded pool's deallocate() spin for ever: bounded by a step budget)
+        cds_verif::set_step_budget( 200000 );
         for ( size_t t = 0; t < held_.size(); ++t ) { for ( Obj* o : held_[t] ) do_dealloc( int( t ), o ); held_[t].clear(); }
         if ( !owner_.empty()) fail( "C24:engine", "owner map not empty at quiescence" );
         long news_before = g_heap.news;
@@ -245,6 +247,7 @@ public:
             if ( extra ) { if ( in_block( extra )) fail( "C24:two-holders", "an object of the preallocated block was served beyond the capacity" ); got.push_back( extra ); }
         }
         for ( Obj* o : got ) do_dealloc( -1, o );
+        cds_verif::set_step_budget( 0 );
         pool_.reset(); current_pool<P>::ptr = nullptr; g_heap.names = nullptr;
         if ( !g_heap.live.empty()) fail( "C24:leak", "the destroyed pool leaves " + std::to_string( g_heap.live.size()) + " allocation(s) behind" );
         if ( !g_heap.err_sig.empty()) fail( g_heap.err_sig.c_str(), g_heap.err );
